@@ -34,7 +34,7 @@ func fresh(x any) bool                           { return true }
 // compiler's settings only; it stores nothing in the compiler and writes nothing to the tree (empty modifies clause).
 // Post-processing of the text depends on the pretty-print setting alone -- never on whether a source map is requested.
 //@ func (c *Compiler) Compile(program)
-//@   props C14 C06 C08 C01
+//@   props C14 C06 C08 C01 C11
 //@   requires [program] program != nil
 //@   atcall ast:(*Program).WriteTo [writer.config@C06,C14] arg_cw != nil && fresh(arg_cw) && arg_cw.PrettyPrint == c.prettyPrint && arg_cw.IndentString == c.prettyPrintOptions.IndentString && arg_cw.WriteSemicolons == c.prettyPrintOptions.WriteSemicolons && arg_cw.IndentLevel == 0 && (arg_cw.Mapper != nil) == c.generateSourceMap && ast.WriterEmpty(arg_cw)
 //@   atcall ast:(*Program).WriteTo [writer.mapper@C08,C14] arg_cw.Mapper == nil || fresh(arg_cw.Mapper)
@@ -54,10 +54,10 @@ func fresh(x any) bool                           { return true }
 //@   ensures [mechanism@C06,C15,C07] fullSeq(evCall("strings.Join")) && callArg[string]("strings.Join", 0, 1) == "\n" && result == callResult[string]("strings.Join", 0) && len(callArg[[]string]("strings.Join", 0, 0)) == len(callResult[[]string]("strings.Split", 0))
 
 //@ func New()
-//@   props C14
+//@   props C14 C11
 //@   ensures [fresh@C14] result != nil && fresh(result) && !result.generateSourceMap && !result.prettyPrint
 
 //@ func (c *Compiler) WithSourceMap()
-//@   props C14 C08
+//@   props C14 C08 C11
 //@   modifies c.generateSourceMap
 //@   ensures [set] c.generateSourceMap && result == c
